@@ -317,25 +317,22 @@ func checkC20(c *Ctx) {
 	}
 	c.fn(dispatcher)
 	okDisp := false
-	walkNoLit(dispatcher.Body, func(q ast.Node) bool {
-		cc, ok := q.(*ast.CaseClause)
-		if !ok {
-			return true
-		}
-		for _, x := range cc.List {
-			if sel, ok := unparen(x).(*ast.SelectorExpr); ok && sel.Sel.Name == "TokenEOF" {
-				for _, st := range cc.Body {
-					if es, ok := st.(*ast.ExprStmt); ok {
-						if call, ok := es.X.(*ast.CallExpr); ok {
-							if callee := calleeOf(info, call); callee != nil && callee == lx.eof.Obj {
-								okDisp = true
+	eachTagBranch(w, w.expander(dispatcher), dispatcher.Body, func(node ast.Node, tag string, arms []tagArm) {
+		for _, a := range arms {
+			for _, v := range a.vals {
+				if sel, ok := unparen(v).(*ast.SelectorExpr); ok && sel.Sel.Name == "TokenEOF" {
+					for _, st := range a.body {
+						if es, ok := st.(*ast.ExprStmt); ok {
+							if call, ok := es.X.(*ast.CallExpr); ok {
+								if callee := calleeOf(info, call); callee != nil && callee == lx.eof.Obj {
+									okDisp = true
+								}
 							}
 						}
 					}
 				}
 			}
 		}
-		return true
 	})
 	c.ob("C20.R2", dispatcher.Name+"/eof-dispatch", w.Pos(dispatcher.Decl.Pos()), okDisp, map[bool]string{true: "EOF tokens of the base lexer go to the EOF handler", false: "EOF tokens of the base lexer are not handed to the draining EOF handler"}[okDisp])
 }
